@@ -8,6 +8,12 @@ HOOK_COMMITS = subprocess.run(["git", "-C", "/repo", "log", "--format=%H", "--gr
 
 # id -> (technique, level text, level note, design ref)
 CHECKS = {
+ "C10": ("exhaustive enumeration of (type, value, production history) triples and prune targets, judged by reference type/value trees",
+         "Every type with <=3/4 constructors plus word/option/buffer types, every value (corner values above 4096), 17 production histories including sub-value extraction at every bit offset from dirty buffers, every prune target with <=2/3 constructors and every two-step chain. Complete within those bounds.",
+         "Trusts the reference enum trees (width, padding, compact/padded bits by the Tech Report definitions). Wide types only on corner values.", "5/C10"),
+ "C11": ("exhaustive pairwise (and triple-wise) comparison of all (value, history) productions per type against reference denotations",
+         "All ordered pairs of productions of every type with <=2/3 constructors (plus small words and unequal sums), across 17 histories, for ==, cmp, partial_cmp, hash and Word; all triples for transitivity on the smaller types; cross-type pairs on constructor representatives.",
+         "Hash compared with SipHasher default keys; types beyond the bound only on corner values.", "5/C11"),
  "C13": ("explicit-state exploration of the real BitIter (state = full internal state) over every 2/3-byte stream, plus exhaustive enumeration of writer op sequences, naturals, bit strings and windows against a Vec<bool> model",
          "Every reachable reader state over every byte string of the bound length is visited and an invariant plus model agreement is evaluated on every transition; all writer histories to depth 3/4, all naturals to 2^16/2^22 and around every power of two, all windows over <=3-byte slices. Exhaustive within those bounds, so any cursor/offset/refill bug that manifests on a stream of <=3 bytes is found.",
          "Trusts the 80-line Vec<bool> reference model and the recursive definition of the natural code; streams longer than 3 bytes are not explored.", "5/C13"),
